@@ -170,8 +170,18 @@ static Type *get_common_type(Type *ty1, Type *ty2) {
 // be promoted to match with the other.
 //
 // This operation is called the "usual arithmetic conversion".
+// [https://www.sigbus.info/n1570#6.3.1.1p2] A bit-field whose values
+// all fit in an int is promoted to int, even if it is declared
+// unsigned: `-s.u3` is negative and `s.u3 - 8 < 0` is true.
+static Type *promoted_type(Node *node) {
+  if (node->kind == ND_MEMBER && node->member->is_bitfield && is_integer(node->ty) &&
+      node->ty->size <= 4 && node->member->bit_width < 32)
+    return ty_int;
+  return node->ty;
+}
+
 static void usual_arith_conv(Node **lhs, Node **rhs) {
-  Type *ty = get_common_type((*lhs)->ty, (*rhs)->ty);
+  Type *ty = get_common_type(promoted_type(*lhs), promoted_type(*rhs));
   *lhs = new_cast(*lhs, ty);
   *rhs = new_cast(*rhs, ty);
 }
@@ -209,7 +219,7 @@ void add_type(Node *node) {
     node->ty = node->lhs->ty;
     return;
   case ND_NEG: {
-    Type *ty = get_common_type(ty_int, node->lhs->ty);
+    Type *ty = get_common_type(ty_int, promoted_type(node->lhs));
     node->lhs = new_cast(node->lhs, ty);
     node->ty = ty;
     return;
@@ -244,7 +254,7 @@ void add_type(Node *node) {
   case ND_SHR: {
     // The integer promotions are performed on the (left) operand and
     // the result has the promoted type.
-    Type *ty = get_common_type(ty_int, node->lhs->ty);
+    Type *ty = get_common_type(ty_int, promoted_type(node->lhs));
     node->lhs = new_cast(node->lhs, ty);
     node->ty = ty;
     return;
